@@ -40,6 +40,8 @@ import (
 //     terminates every later flow - the additional connections of the transfer - as a QUIC
 //     server of its own, opening a second QUIC connection to the receiver and copying stream
 //     bytes between the two TLS sessions, or
+//   - forwards the first two flows (primary and first additional connection) and terminates
+//     the later ones, or
 //   - terminates every flow.
 // On a terminated flow the two peers are not the two ends of one TLS session, so
 // authentication cannot succeed there; the attacker sees all stream bytes in the clear and
@@ -53,15 +55,16 @@ import (
 const c08AuthSlack = 256 // bytes per direction and flow; the authentication message has 50
 
 type c08Relay struct {
-	sock   *net.UDPConn
-	mode   string
-	mu     sync.Mutex
-	target *net.UDPAddr
-	first  string
-	fwd    map[string]*net.UDPConn
-	quicIn chan c08Pkt
-	closed chan struct{}
-	once   sync.Once
+	sock    *net.UDPConn
+	mode    string
+	mu      sync.Mutex
+	target  *net.UDPAddr
+	first   string
+	rawKeys map[string]bool
+	fwd     map[string]*net.UDPConn
+	quicIn  chan c08Pkt
+	closed  chan struct{}
+	once    sync.Once
 
 	forwardedFlows  int32
 	terminatedFlows int32
@@ -86,7 +89,7 @@ func newC08Relay(mode string) (*c08Relay, error) {
 	}
 	s.SetReadBuffer(4 << 20)
 	s.SetWriteBuffer(4 << 20)
-	r := &c08Relay{sock: s, mode: mode, fwd: map[string]*net.UDPConn{}, quicIn: make(chan c08Pkt, 4096), closed: make(chan struct{})}
+	r := &c08Relay{sock: s, mode: mode, rawKeys: map[string]bool{}, fwd: map[string]*net.UDPConn{}, quicIn: make(chan c08Pkt, 4096), closed: make(chan struct{})}
 	go r.readLoop()
 	if mode != "forward" && mode != "rogue-sender" {
 		go r.terminate()
@@ -136,7 +139,14 @@ func (r *c08Relay) readLoop() {
 		if r.first == "" {
 			r.first = key
 		}
-		raw := r.mode == "forward" || (r.mode == "terminate-extras" && key == r.first)
+		// flows are told apart by the sender's source port; the first ones (in order of
+		// appearance) pass untouched: all of them, the primary only, the primary and the first
+		// additional connection, or none
+		limit := map[string]int{"forward": 1 << 30, "terminate-extras": 1, "terminate-later-extras": 2}[r.mode]
+		if _, seen := r.rawKeys[key]; !seen && len(r.rawKeys) < limit {
+			r.rawKeys[key] = true
+		}
+		raw := r.rawKeys[key]
 		var up *net.UDPConn
 		if raw && target != nil {
 			up = r.fwd[key]
@@ -597,13 +607,16 @@ func TestVerifC08E2E(t *testing.T) {
 			return
 		}
 		// every case meets all three attacker behaviours, in a drawn order
-		modes := []string{"terminate-extras", "terminate-all", "forward", "impersonate-receiver", "rogue-sender"}
+		modes := []string{"terminate-extras", "terminate-all", "forward", "impersonate-receiver", "rogue-sender", "terminate-later-extras"}
 		rot := int(pick % uint64(len(modes)))
 		modes = append(modes[rot:], modes[:rot]...)
 		for i, mode := range modes {
 			conns := []int{2, 3, 4}[(pick/4+uint64(i))%3]
 			if mode != "terminate-extras" && mode != "forward" {
 				conns = []int{1, 2}[(pick/4)%2]
+			}
+			if mode == "terminate-later-extras" {
+				conns = []int{3, 4}[(pick/4)%2] // the attacker leaves the first additional connection alone
 			}
 			if !c08E2ECase(rt, t, rec, thru, dir, root, tree, mode, conns, i) {
 				return
@@ -649,7 +662,7 @@ func c08E2ECase(rt *rapid.T, t *testing.T, rec *verifkit.Recorder, thru, dir, ro
 	os.MkdirAll(out, 0755)
 	limit := 60 * time.Second
 	switch mode {
-	case "terminate-extras", "terminate-all":
+	case "terminate-extras", "terminate-all", "terminate-later-extras":
 		limit = 45 * time.Second // a join that waits for a connection that never authenticates is not judged
 	case "impersonate-receiver":
 		limit = 6 * time.Second // the receiver is never contacted and waits; what matters is what the sender does
